@@ -324,3 +324,11 @@ def rule_inventory(ctx):
 
 
 RULES.append(("C20.f", "state-mutation inventory: no new site that changes the content of the state this property rests on", rule_inventory))
+
+
+def rule_mustpass(ctx):
+    from . import mustpass
+    mustpass.check(ctx, ['pq-insert-pushes', 'ipq-insert-sifts', 'ipq-pull-sifts'])
+
+
+RULES.append(("C20.g", "must-pass-through: no path around the effects this property rests on (added fast paths / early returns)", rule_mustpass))
